@@ -799,6 +799,28 @@ theorem assemble_lookup (vals : List (Str × V)) (props : List (Str × RS)) (k :
       | nil => simp only; exact ih h
       | cons w ws => simp only [lookup, hk, if_false]; exact ih h
 
+/-- **C06(d), multipart.** `MultipartBodyDecoder` builds exactly the object the parts encode — every part declared
+(or ignorable) and decodable under its own Content-Type, array properties collect all their parts in order, other
+properties take their first part, properties without a part are absent — and fails exactly when the parts encode
+no object; the declarative reading (`specMultipart`) uses no loop of the decoder and no order of the checks -/
+theorem multipart_decodes_what_parts_encode (reg : List (Str × DecK)) (s : RS) (ps : List Part)
+    (h : tyIs s.ty .object = true) :
+    (∀ v, decodeMultipart reg s (some ps) = .val v → specMultipart reg s ps = some v) ∧
+    (decodeMultipart reg s (some ps) = .err → specMultipart reg s ps = none) :=
+  ⟨(decodeMultipart_spec reg s ps h).1, (decodeMultipart_spec reg s ps h).2.1⟩
+
+example :
+    let strA := RS.leaf (some .array) false false false 0 none [] [] none (some (RS.leaf (some .string) false false false 0 none [] [] none none))
+    let s := RS.leaf (some .object) false false false 0 none [(['a'], strA), (['b'], RS.leaf (some .integer) false false false 0 none [] [] none none)] [] (some true) none
+    let ps : List Part := [⟨['a'], [], ['x'], none, none, none⟩, ⟨['z'], [], ['q'], none, none, none⟩,
+      ⟨['b'], "application/json".toList, ['5'], some (.int 5), none, none⟩, ⟨['a'], [], ['y'], none, none, none⟩]
+    (match specMultipart registry s ps with
+     | some v => V.beq v (.obj [(['a'], .arr [.str ['x'], .str ['y']]), (['b'], .int 5)])
+     | none => false) = true ∧
+    (match decodeMultipart registry s (some ps) with
+     | .val v => V.beq v (.obj [(['a'], .arr [.str ['x'], .str ['y']]), (['b'], .int 5)])
+     | _ => false) = true := by decide
+
 /-- JSON decoder: the decoded value is what `encoding/json` makes of the *whole* text; text that is not
 exactly one JSON value (trailing data, finding #36 — now fixed) is a decoding error -/
 theorem json_decoder (text : Str) (j : Option V) :
@@ -827,7 +849,17 @@ theorem decode_agrees (reg : List (Str × DecK)) (rb : ReqBody) (ct : Str) (b : 
     | file => simp [decodeSimple]
     | yaml => cases b.yaml <;> simp [decodeSimple]
     | csv => cases b.csv <;> simp [decodeSimple]
-    | multipart => cases decodeMultipart reg s b.parts <;> simp
+    | multipart =>
+      simp only
+      cases hty : tyIs s.ty .object with
+      | false => simp [decodeMultipart, hty]
+      | true =>
+        cases hp : b.parts with
+        | none => simp [decodeMultipart, hty]
+        | some ps =>
+          obtain ⟨m1, m2, _, _⟩ := decodeMultipart_spec reg s ps hty
+          simp only [if_true, Option.bind_some]
+          exact ⟨m1, m2⟩
     | urlencoded =>
       simp only
       unfold decodeForm
